@@ -150,7 +150,8 @@ def frame_obligations(eng, con, c0, s1, entry_heap, normal):
             if owners is None:
                 continue
             r = fresh("r", Ref)
-            eng.oblige(s1, f"{label}.{k}", z3.Implies(z3.And(z3.Select(entry_heap.get("$alloc"), r), *[r != o for o in owners]), same(k, new, old, r)), "frame")
+            outside = z3.Not(owners(r)) if callable(owners) else z3.And(*[r != o for o in owners])
+            eng.oblige(s1, f"{label}.{k}", z3.Implies(z3.And(z3.Select(entry_heap.get("$alloc"), r), outside), same(k, new, old, r)), "frame")
         else:
             r = fresh("r", Ref)
             eng.oblige(s1, f"{label}.{k}", z3.Implies(z3.Select(entry_heap.get("$alloc"), r), same(k, new, old, r)), "frame")
